@@ -14,7 +14,7 @@ EX := $(REPO)/examples
 
 SIM_CXXFLAGS := -std=gnu++17 -O1 -g -Wall -Wno-unused-function -fno-omit-frame-pointer
 COV := -fsanitize-coverage=trace-pc-guard,pc-table
-REPO_CFLAGS_COMMON := -std=gnu99 -g -fno-omit-frame-pointer -U_FORTIFY_SOURCE -D_FORTIFY_SOURCE=0 -I$(REPO)/include $(REPO_EXTRA_INCS) -w
+REPO_CFLAGS_COMMON := $(REPO_STD) -g -fno-omit-frame-pointer -U_FORTIFY_SOURCE -D_FORTIFY_SOURCE=0 -I$(REPO)/include $(REPO_EXTRA_INCS) -w
 
 # ---------------------------------------------------------------- net engine (C18, C19)
 NET_SAN := -fsanitize=address,bounds,integer-divide-by-zero -fno-sanitize-recover=all
@@ -74,7 +74,7 @@ $(NETB)/examples_O0.o: $(EX_SRCS) $(LIB_SRCS) $(REPO_HDRS) Makefile tools/build_
 # third copy: programs and library as the repository's own default toolchain compiles them (gcc, -O2). What the C standard leaves to the
 # compiler (order of evaluation of arguments and operands, layout of locals, what an optimiser does with undefined behaviour) differs
 # between gcc and clang; gcc's address/bounds instrumentation reports to the same sanitizer runtime, its basic-block callback is trace-pc
-NET_REPO_CFLAGS_G := -std=gnu99 -g -fno-omit-frame-pointer -U_FORTIFY_SOURCE -D_FORTIFY_SOURCE=0 -I$(REPO)/include $(REPO_EXTRA_INCS) -w -O2 -DNDEBUG \
+NET_REPO_CFLAGS_G := $(REPO_STD) -g -fno-omit-frame-pointer -U_FORTIFY_SOURCE -D_FORTIFY_SOURCE=0 -I$(REPO)/include $(REPO_EXTRA_INCS) -w -O2 -DNDEBUG \
 	-fsanitize=address,bounds,integer-divide-by-zero -fno-sanitize-recover=all -fsanitize-coverage=trace-pc -I$(EX)
 $(NETB)/examples_G.o: $(EX_SRCS) $(LIB_SRCS) $(REPO_HDRS) Makefile tools/build_o0.sh $(B)/repo_config.mk | dirs
 	COPY_PREFIX=G_ tools/build_o0.sh $(NETB)/exG $@ "gcc" "$(NET_REPO_CFLAGS_G) $(REPO_EX_DEFS)" $(EX) "$(REPO_LIB_DEFS)" $(LIB_SRCS)
@@ -101,7 +101,7 @@ RECB := $(B)/rec
 REC_BIND_OBJS := $(patsubst $(GEN)/%.c,$(RECB)/%.o,$(BIND_SRCS))
 $(RECB)/bind_%.o: $(GEN)/bind_%.c bindings/bind.h $(REPO_HDRS) | dirs
 	@mkdir -p $(RECB)
-	$(CC) -std=gnu99 -O2 -g -fsanitize=address -I$(REPO)/include $(REPO_EXTRA_INCS) -Ibindings -w -c $< -o $@
+	$(CC) $(REPO_STD) -O2 -g -fsanitize=address -I$(REPO)/include $(REPO_EXTRA_INCS) -Ibindings -w -c $< -o $@
 REC_SIM_SRCS := sim/task.cc sim/driver.cc sim/symtab.cc sim/cov.cc engines/rec/rec.cc
 REC_SIM_OBJS := $(patsubst %.cc,$(RECB)/sim/%.o,$(REC_SIM_SRCS))
 $(RECB)/sim/%.o: %.cc $(wildcard sim/*.h spec/*.h bindings/*.h engines/reent/drivers.h) Makefile | dirs
@@ -110,7 +110,7 @@ $(RECB)/sim/%.o: %.cc $(wildcard sim/*.h spec/*.h bindings/*.h engines/reent/dri
 REC_DRV_OBJS := $(B)/reent/drv_can.o $(B)/reent/drv_canbrief.o $(B)/reent/drv_vss.o $(RECB)/drvvar.o
 # the drivers again, behind all public headers in alphabetical / reverse order (A_, Z_)
 $(RECB)/drvvar.o: $(DRVVAR_DEPS) | dirs
-	tools/build_drv_variants.sh $@ $(RECB)/drvvar "$(CC)" "-std=gnu99 -O1 -g -I$(REPO)/include $(REPO_EXTRA_INCS) -Iengines/reent -w" $(GEN)/all_headers_az.h $(GEN)/all_headers_za.h $(DRV_SRCS)
+	tools/build_drv_variants.sh $@ $(RECB)/drvvar "$(CC)" "$(REPO_STD) -O1 -g -I$(REPO)/include $(REPO_EXTRA_INCS) -Iengines/reent -w" $(GEN)/all_headers_az.h $(GEN)/all_headers_za.h $(DRV_SRCS)
 $(B)/rec_sim: $(NETB)/marker_begin.o $(NET_LIB_OBJS) $(NETB)/marker_end.o $(REC_BIND_OBJS) $(REC_DRV_OBJS) $(REC_SIM_OBJS)
 	$(CXX) -no-pie -fsanitize=address,bounds,integer-divide-by-zero -o $@ $(NETB)/marker_begin.o $(NET_LIB_OBJS) $(NETB)/marker_end.o $(REC_BIND_OBJS) $(REC_DRV_OBJS) $(REC_SIM_OBJS) -lm
 rec: $(B)/rec_sim
@@ -125,12 +125,12 @@ $(REENTB)/lib/%.o: $(REPO)/src/%.c $(REPO_HDRS) Makefile $(B)/repo_config.mk | d
 REENT_BIND_OBJS := $(patsubst $(GEN)/%.c,$(REENTB)/%.o,$(BIND_SRCS))
 $(REENTB)/bind_%.o: $(GEN)/bind_%.c bindings/bind.h $(REPO_HDRS) | dirs
 	@mkdir -p $(REENTB)
-	$(CC) -std=gnu99 -O1 -g -I$(REPO)/include $(REPO_EXTRA_INCS) -Ibindings -w -c $< -o $@
+	$(CC) $(REPO_STD) -O1 -g -I$(REPO)/include $(REPO_EXTRA_INCS) -Ibindings -w -c $< -o $@
 REENT_WRAPFLAGS := $(foreach w,strtok rand srand localtime gmtime ctime asctime strerror setlocale malloc calloc realloc free getenv secure_getenv rand_r strtok_r random_r srandom_r initstate_r setstate_r drand48_r lrand48_r mrand48_r erand48_r nrand48_r jrand48_r srand48_r seed48_r lcong48_r mbrtowc mbrlen wcrtomb mbsrtowcs wcsrtombs localtime_r gmtime_r iconv iconv_close strcpy strncpy strcat strncat stpcpy stpncpy sprintf snprintf vsprintf vsnprintf memccpy mempcpy bzero explicit_bzero wmemcpy wmemmove wmemset strxfrm qsort wcscpy wcsncpy bcopy swab strtol strtoul strtoll strtoull strtod strtof $(shell cat engines/reent/libc_denylist.txt),-Wl,--wrap=$(w))
 REENT_DRV_OBJS := $(REENTB)/drv_can.o $(REENTB)/drv_canbrief.o $(REENTB)/drv_vss.o
 $(REENTB)/drv_%.o: engines/reent/drv_%.c engines/reent/drivers.h $(REPO_HDRS) | dirs
 	@mkdir -p $(REENTB)
-	$(CC) -std=gnu99 -O1 -g -I$(REPO)/include $(REPO_EXTRA_INCS) -Iengines/reent -w -c $< -o $@
+	$(CC) $(REPO_STD) -O1 -g -I$(REPO)/include $(REPO_EXTRA_INCS) -Iengines/reent -w -c $< -o $@
 REENT_SIM_SRCS := sim/task.cc sim/driver.cc sim/symtab.cc sim/cov.cc engines/reent/reent.cc
 REENT_SIM_OBJS := $(patsubst %.cc,$(REENTB)/sim/%.o,$(REENT_SIM_SRCS))
 $(REENTB)/sim/%.o: %.cc $(wildcard sim/*.h spec/*.h bindings/*.h engines/reent/*.h engines/reent/*.inc engines/reent/*.txt) Makefile | dirs
@@ -151,7 +151,7 @@ reent: $(B)/reent_sim
 # is invisible to a clang-only build. reentg_sim / recg_sim run the same engines against the library and the bindings compiled by gcc -O2.
 GCC := gcc
 GLIBB := $(B)/glib
-GCC_REPO_CFLAGS := -std=gnu99 -O2 -DNDEBUG -g -fno-omit-frame-pointer -fno-common -U_FORTIFY_SOURCE -D_FORTIFY_SOURCE=0 -I$(REPO)/include $(REPO_EXTRA_INCS) -w
+GCC_REPO_CFLAGS := $(REPO_STD) -O2 -DNDEBUG -g -fno-omit-frame-pointer -fno-common -U_FORTIFY_SOURCE -D_FORTIFY_SOURCE=0 -I$(REPO)/include $(REPO_EXTRA_INCS) -w
 GCC_LIB_OBJS := $(patsubst $(REPO)/src/%.c,$(GLIBB)/lib/%.o,$(LIB_SRCS))
 $(GLIBB)/lib/%.o: $(REPO)/src/%.c $(REPO_HDRS) Makefile $(B)/repo_config.mk | dirs
 	@mkdir -p $(dir $@)
@@ -208,7 +208,7 @@ reent: $(B)/reento_sim
 G0B := $(B)/g0
 # (-march=native: code that is conditional on instruction-set macros - __SSE4_2__, __AVX2__, __BMI2__ ... - exists only in builds for a
 #  named CPU, which distributions and users request through CMAKE_C_FLAGS; one build per engine is made for the CPU it runs on)
-G0_CFLAGS := -std=gnu99 -O0 -march=native -g -fno-common -U_FORTIFY_SOURCE -D_FORTIFY_SOURCE=0 -I$(REPO)/include $(REPO_EXTRA_INCS) -w
+G0_CFLAGS := $(REPO_STD) -O0 -march=native -g -fno-common -U_FORTIFY_SOURCE -D_FORTIFY_SOURCE=0 -I$(REPO)/include $(REPO_EXTRA_INCS) -w
 G0_LIB_OBJS := $(patsubst $(REPO)/src/%.c,$(G0B)/lib/%.o,$(LIB_SRCS))
 $(G0B)/lib/%.o: $(REPO)/src/%.c $(REPO_HDRS) Makefile $(B)/repo_config.mk | dirs
 	@mkdir -p $(dir $@)
